@@ -187,6 +187,15 @@ def run(ctx):
         log("[C14] binding self-test: %d corrupted copies of a recorded scenario rejected, the original accepted" % nself)
     elif not V.violations:
         raise vlib.Infra("no accepted scenario available for the binding self-test")
+    # thorough tier: the implementation-shaped model of the pcapng reader (NgReaderImpl.tla): model checked against the
+    # property specs, runs replayed on the real NgReader with predicted-vs-observed comparison, real traces judged
+    impl = {}
+    if ctx.tier != "quick":
+        from . import ngreaderimpl as ni
+        icov = ni.run_impl(ctx, lambda reason, prop: V if prop == PID else None)
+        impl["impl_model"] = {k: icov[k] for k in ("model", "plans", "defect_finding_runs", "states", "traces_validated_against_impl",
+                                                   "trace_events_validated", "calls_compared_model_vs_code", "rejected_real_scenarios",
+                                                   "impl_drift", "code_decisions_total") if k in icov}
     rc = V.finish()
     assumptions = ["a crash of the writing process is modelled as a prefix of the flushed byte stream; torn writes inside the OS are out of scope",
                    "timestamps: seconds < 2^31 (TLC integers are 32 bit); pcapng writer resolution is fixed to nanoseconds by the library",
@@ -201,6 +210,7 @@ def run(ctx):
            "evaluations": total_sc, "distinct_nontrivial": total_sc,
            "rule": "every scenario of PcapFileGen.tla within the bound (distinct by construction) x every cut offset 0..size x copying and zero-copy calls, plus seeded random files beyond the bound (up to 8 packets of up to 4097 bytes, option strings up to 1500 bytes)",
            "samples": samples, "exhaustive": not quick}
+    cov.update(impl)
     vlib.write_evidence(PID, ctx.tier, ctx.seed, "model_checking", cov, time.time() - t0, len(V.violations), assumptions)
     shutil.rmtree(wd, ignore_errors=True)
     return rc
